@@ -32,12 +32,18 @@ EXPECT = {
     "seed-C10-g": ["C10"], "seed-C15-g": ["C15"], "seed-C16-g": ["C16", "C07"], "seed-C18-g": ["C18"],
     "seed-C02-h": ["C02", "C03"], "seed-C06-h": ["C06"], "seed-C08-h": ["C08"], "seed-C11-h": ["C11"], "seed-C12-h": ["C12", "C03"], "seed-C13-h": ["C13"],
     "seed-C14-h": ["C14"], "seed-C17-h": ["C17"], "seed-C19-h": ["C19"],
+    "seed-C01-i": ["C01", "C03"], "seed-C03-i": ["C03"], "seed-C05-i": ["C05"], "seed-C07-i": ["C07"], "seed-C09-i": ["C09"], "seed-C10-i": ["C10"],
+    "seed-C15-i": ["C15"], "seed-C16-i": ["C16", "C08"], "seed-C18-i": ["C18"],
 }
 
 
 def sh(cmd, cwd=None, env=None, timeout=3600):
     p = subprocess.run(cmd, cwd=cwd, env=env, capture_output=True, text=True, timeout=timeout, shell=isinstance(cmd, str))
     return p.returncode, p.stdout + p.stderr
+
+
+# seeded changes that no check reports, by design (see DESIGN.md 13.4)
+NOT_DETECTED_BY_DESIGN = {"seed-C04-i"}
 
 
 def changes():
@@ -90,6 +96,8 @@ def main(args):
             m = re.search(r"test result: (\w+)\. (\d+) passed; (\d+) failed", "\n".join(l for l in out.splitlines() if "128 passed" in l or "FAILED" in l) or out)
             suite = "128 passed" if "test result: ok. 128 passed; 0 failed" in out else "SUITE FAILS"
         row = {"change": name, "applies": True, "repo_suite": suite, "checks": {}}
+        if name in NOT_DETECTED_BY_DESIGN:
+            row["not_detected_by_design"] = True
         for pid in EXPECT.get(name, []):
             rc, out = sh([os.path.join(B.ROOT, "check"), pid, "quick"], env=dict(env, VERIF_REPO=copy))
             viol = [l for l in out.splitlines() if l.startswith("VIOLATION")]
